@@ -2865,6 +2865,11 @@ func (p *Parser) letClause(s *Stmt) {
 		p.followErrExp(lc.Let, "let")
 	}
 	p.postNested(old)
+	if p.tok == _Newl {
+		// The newline ending the clause was read in the nested state,
+		// which holds off any heredocs which were pending before "let".
+		p.doHeredocs()
+	}
 	s.Cmd = lc
 }
 
